@@ -179,10 +179,54 @@ fn random_routes(src: &mut Src, obs: &mut Obs) -> Res {
     let mut cfg = cfg_paths();
     // selector spellings: half of the cases single-quoted/minimal (strict region), half free
     cfg.free_escapes = src.bool();
+    // which nodes a filter keeps decides which paths are reported: regular-expression tests take part as in C01
+    cfg.regex = src.bool();
     let doc = gen_doc(src, &cfg).sorted();
     let q = gen_query(src, &doc, &cfg);
     let blanks = src.chance(1, 4);
     let text = render_with_blanks(src, &q, blanks);
+    check(&q, &text, &doc, obs)
+}
+
+/// lists of records with optional members under a filter that consists of one test (the commonest query of
+/// all): the kept elements are scattered over the list, so a path whose index counts anything but the
+/// position in the array - the position among the candidates, among the hits - is wrong
+fn random_record_filters(src: &mut Src, obs: &mut Obs) -> Res {
+    let span = if src.chance(1, 8) { 40 } else { 9 };
+    let n = 2 + src.below(span);
+    let strings = ["ab", "abc", "b", "xab", "", "a b", "ab@example.com"];
+    let rows: Vec<J> = (0..n)
+        .map(|i| {
+            if src.chance(1, 6) {
+                // not a record at all
+                return src.pick(&[J::Null, J::Bool(false), J::Int(i as i64), J::Str("ab".into()), J::Arr(vec![J::Str("ab".into())]), J::Obj(vec![])]).clone();
+            }
+            let mut m: Vec<(String, J)> = vec![];
+            match src.below(6) {
+                0 => {}
+                1 => m.push(("n".into(), J::Null)),
+                2 => m.push(("n".into(), J::Int(7))),
+                _ => m.push(("n".into(), J::Str(src.pick(&strings).to_string()))),
+            }
+            if src.bool() {
+                m.push(("k".into(), J::Int(src.range(0, 4))));
+            }
+            J::Obj(m)
+        })
+        .collect();
+    let under_name = src.bool();
+    let doc = if under_name { J::Obj(vec![("l".to_string(), J::Arr(rows))]) } else { J::Arr(rows) };
+    let test = *src.pick(&[
+        "match(@.n, 'ab.*')", "search(@.n, 'ab')", "search(@.n, 'b')", "match(@.n, '.*b')", "search(@.n,'example')", "!search(@.n, 'ab')", "search(@.n, 'ab') && @.k", "@.n == 'ab'", "@.n", "!@.n", "@.k > 1",
+        "length(@.n) >= 2", "count(@.*) == 2", "@.n != null", "search(@['n'], \"a\")", "match(@.n, @.n)", "@.k == 1 || @.n == 7",
+    ]);
+    let head = if under_name { *src.pick(&["$.l", "$['l']", "$..l", "$.*"]) } else { *src.pick(&["$", "$", "$.."]) };
+    let text = format!("{}[?{}]{}", head, test, *src.pick(&["", "", "", ".n", "['k']", "[?@ == 1]"]));
+    let q = match crate::recog::parse_ast(&text) {
+        Some(q) => q,
+        None => return Err(Failure::new("harness inconsistency: the record-filter family produced a query outside the recogniser's language", json!({"query": text}))),
+    };
+    obs.label("record-filter");
     check(&q, &text, &doc, obs)
 }
 
@@ -254,9 +298,11 @@ pub fn prop() -> Prop {
         ],
         subs: vec![
             // the wide flat arrays and objects of C01's box: locations by address, paths literally
+            // first of all: its arrays must be wider than anything the process has evaluated before
+            Sub { name: "parallel-first-touch", kind: Kind::Exhaustive(parallel_first_touch) },
             Sub { name: "large-flat-paths", kind: Kind::Exhaustive(crate::props::c01::large_flat) },
             Sub { name: "random-routes", kind: Kind::Random { f: random_routes, quick: 200_000, thorough: 4_000_000, len: 400 } },
-            Sub { name: "parallel-first-touch", kind: Kind::Exhaustive(parallel_first_touch) },
+            Sub { name: "random-record-filters", kind: Kind::Random { f: random_record_filters, quick: 60_000, thorough: 1_200_000, len: 200 } },
             Sub { name: "random-all-nodes", kind: Kind::Random { f: random_all_nodes, quick: 50_000, thorough: 1_000_000, len: 300 } },
         ],
         direct: Some(direct),
